@@ -5,9 +5,9 @@
   (national validation can only reject), acceptance for countries without an algorithm, and the
   dispatch theorem.  Published-rule equivalences are proved here for the ISO 7064 families
   (BA, ME, MK, PT, RS, SI, TL; MR, TN; BE) against `SV.Spec.National`, through the regenerated
-  registration table and positions; for the weighted / Luhn / CIN algorithms (ES, FR, MC, IT, SM,
-  FI, NO, PL, EE, CZ, SK, IS) the published rule is checked by the independent reference of the
-  correspondence harness (`tools/natref.py`) and the model is tied to the code by correspondence.
+  registration table and positions; for the weighted / Luhn / RIB / CIN algorithms (ES, FR, MC, IT,
+  SM, FI, NO, PL, EE, CZ, SK, IS) in `C06Rules.lean`.  `C06Probe.lean` ties the algorithm bodies
+  and their constants to the live objects by kernel-checked recorded calls.
 -/
 import SV.Proofs.National
 import SV.Props.C01
